@@ -228,12 +228,76 @@ func runC17(c *core.Ctx) error {
 			return err
 		}
 	}
+	if err := runC17long(c); err != nil {
+		return err
+	}
 	// call histories (SchemaApi_enum.cfg): results do not depend on earlier calls, returned values stay intact
 	if err := runObjHistories(c, objKinds["enum"], objPairs([]string{"[1, \"a\"]", "[\"a\", // c\n 2]", "[1, 1]", "[-1, \"-1\", 1.5]", "[", "[true, null]", "[\"x\", \"y\", \"z\"] // note", "", "[1.0, 1]"}, c.Pick(9, 36), c.Seed)); err != nil {
 		return err
 	}
 	c.Set("rule", "token paths of the TLC-dumped EnumRule automaton (<= 3 items from four parts of a 37-scalar catalogue): access sequence of every state followed by every token sequence <= k, plus seeded random walks; printed to text and replayed on enum.New (Check, Values) and, per distinct accepted item list, on schemas using the rule by name vs inline for every catalogue value. distinct_nontrivial = distinct (state, token) edges crossed")
 	c.Assume = append(c.Assume, "annotation entries (no value) returned by Values() are not counted as scalars", "the empty list and annotations before '[' have no verdict")
+	return nil
+}
+
+// runC17long: EnumRuleLong.tla - lists of 2..100 distinct scalars with one repeat placed at every (edge) pair of
+// positions: accepted iff no repeat; accepted lists also named-vs-inline.
+func runC17long(c *core.Ctx) error {
+	type longCase struct {
+		Long struct {
+			Mode    string `json:"mode"`
+			N, I, J int
+		} `json:"long"`
+		Entries []enCat `json:"entries"`
+		Expect  string  `json:"expect"`
+	}
+	var cases []longCase
+	res, err := tlc.Run(tlc.Opts{Module: "EnumRuleLong", Cfg: "EnumRuleLong.cfg", Workers: 8, OnLine: nil})
+	defer res.Cleanup()
+	if err != nil {
+		return err
+	}
+	if err := res.MustOK(); err != nil {
+		return err
+	}
+	c.AddTLC("EnumRuleLong.cfg", res)
+	for _, l := range res.Lines {
+		var lc longCase
+		if err := json.Unmarshal([]byte(l), &lc); err != nil {
+			return fmt.Errorf("bad long-list case: %v", err)
+		}
+		cases = append(cases, lc)
+	}
+	if len(cases) < 1000 {
+		return fmt.Errorf("EnumRuleLong emitted %d cases", len(cases))
+	}
+	small := []enCat{{Text: "1", Kind: "integer"}, {Text: `"1"`, Kind: "string", Str: "1"}, {Text: `"s2"`, Kind: "string", Str: "s2"}, {Text: "64", Kind: "integer"}, {Text: `"zz"`, Kind: "string", Str: "zz"}}
+	layouts := []struct{ name, open, sep, close string }{{"tight", "[", ",", "]"}, {"spaced", "[ ", ", ", " ]"}, {"lines", "[\n  ", ",\n  ", "\n]"}, {"crlf-notes", "[\r\n  ", ", // n\r\n  ", " // last\r\n]"}}
+	core.ParallelFor(len(cases), func(ci int) {
+		lc := cases[ci]
+		var texts []string
+		for _, e := range lc.Entries {
+			texts = append(texts, e.Text)
+		}
+		where := "none"
+		if lc.Long.J != 0 {
+			where = fmt.Sprintf("first<=8:%v,second>=10:%v", lc.Long.I <= 8, lc.Long.J >= 10)
+		}
+		lay := layouts[ci%len(layouts)]
+		cs := enCase{Tokens: []string{"long-list", lc.Long.Mode, where, lay.name}, Text: lay.open + strings.Join(texts, lay.sep) + lay.close, Expect: lc.Expect}
+		if lc.Expect == "accept" {
+			cs.Values = lc.Entries
+		}
+		c.CountEval(1)
+		c.Report(cs, enEval(cs, nil))
+		c.Nontrivial(fmt.Sprint("long:", lc.Long.Mode, lc.Long.N, lc.Long.I, lc.Long.J))
+		if lc.Expect == "accept" {
+			c.CountEval(2 * len(small))
+			c.Report(cs, enEquiv(lc.Entries, append(append([]enCat{}, small...), lc.Entries[len(lc.Entries)-1])))
+			c.Report(cs, enShared(lc.Entries, small))
+		}
+	})
+	c.Set("long_lists", len(cases))
 	return nil
 }
 
